@@ -104,7 +104,8 @@ pub unsafe extern "C" fn sendto(fd: i32, buf: *const u8, len: usize, flags: i32,
     };
     let (result, errno, scripted) = match injected {
         // a destination that this sandbox cannot reach (another host): "accepted by the kernel" without entering it
-        None if FAKE_OK_FD.load(std::sync::atomic::Ordering::Relaxed) == fd => (len as isize, 0, false),
+        // (marked `scripted`: the kernel never saw it, an strace of the process must not expect it)
+        None if FAKE_OK_FD.load(std::sync::atomic::Ordering::Relaxed) == fd => (len as isize, 0, true),
         Some(e) => {
             *__errno_location() = e;
             (-1isize, e, true)
